@@ -3,7 +3,7 @@
    modelled in Model.v does not depend on it.  Only the property theorems; each is closed by a
    lemma of Proofs*.v and followed by Print Assumptions. *)
 From Coq Require Import ZArith Bool List Permutation Sorted.
-From C07 Require Import Gen Model ProofsSort ProofsMemo ProofsUsed ProofsResolve ProofsResolveDep ProofsIds.
+From C07 Require Import Gen Model ProofsSort ProofsMemo ProofsMemoLua ProofsUsed ProofsUsedAll ProofsResolve ProofsResolveDep ProofsIds.
 Import ListNotations.
 
 (* utils/iterators.lua ospairs (as scraped: with or without table.sort): for every order in which
@@ -45,6 +45,17 @@ Theorem C07_memoize_once_per_class :
 Proof. exact memo_run_evaluations_lemma. Qed.
 Print Assumptions C07_memoize_once_per_class.
 
+(* the equivalence premise discharged for the Lua value model (numbers, strings, nil, metatable-free
+   tables matched by identity or shallow comparison) on well-formed argument lists: the same table
+   object has the same fields ([tabs] gives the content of each identity) *)
+Theorem C07_memoize_order_free_lua_values :
+  forall (tabs : Z -> list (Z * Z)) (R : Type) (f : wargs tabs -> R) args perms perms' c c' n,
+    Forall (is_perm (wargs tabs) R) perms -> Forall (is_perm (wargs tabs) R) perms' ->
+    good (wargs tabs) R (weqv tabs) c -> Permutation c c' ->
+    memo_run (wargs tabs) R (weqv tabs) f perms c n args = memo_run (wargs tabs) R (weqv tabs) f perms' c' n args.
+Proof. exact memoize_order_free_lua_lemma. Qed.
+Print Assumptions C07_memoize_order_free_lua_values.
+
 (* symbol.lua Symbol:is_used = reachability of a root-used symbol, for every order of the usedby
    tables (fuel exhaustion, None, is excluded by the premise) *)
 Theorem C07_is_used_is_reachability :
@@ -76,14 +87,18 @@ Proof.
 Qed.
 Print Assumptions C07_is_used_total.
 
-(* types.lua: a codename is a function of (name, source name, node uid) [definitional: it is
-   computed from nothing else]; type ids: equal codenames get equal ids *)
-Theorem C07_codename_fun :
-  forall hash dec name src uid name' src' uid',
-    name = name' -> src = src' -> uid = uid' -> codename hash dec name src uid = codename hash dec name' src' uid'.
-Proof. intros; subst; reflexivity. Qed.
-Print Assumptions C07_codename_fun.
+(* what dead-code elimination runs: is_used(true) on symbol after symbol, caching each answer; with a
+   sound cache every answer is reachability in the uncached graph *)
+Theorem C07_is_used_all_is_reachability :
+  forall usedby root fuel xs cached,
+    sound usedby root cached ->
+    Forall2 (fun x r => forall b, r = Some b -> (b = true <-> reach0 usedby root x)) xs (is_used_all usedby root cached fuel xs).
+Proof. intros; apply is_used_all_lemma; assumption. Qed.
+Print Assumptions C07_is_used_all_is_reachability.
 
+(* types.lua Type:_init: equal codenames get equal ids (the ids themselves follow the ORDER of the first
+   initialisations - ProofsIds.typeid_depends_on_init_order - so their determinism is the determinism of the
+   traversal, which is observed by the differential compilations, not proved) *)
 Theorem C07_typeid_same_codename_same_id :
   forall inits seen counter i j c,
     nth_error inits i = Some c -> nth_error inits j = Some c ->
@@ -104,16 +119,18 @@ Theorem C07_resolve_symbols_order_free_conditional :
 Proof. exact resolve_order_free_conditional_lemma. Qed.
 Print Assumptions C07_resolve_symbols_order_free_conditional.
 
-(* ... and the hypothesis is DISCHARGED for dependency-driven resolution: every symbol resolves (to a type
-   that is a function of the types of the symbols it depends on) as soon as all of those are resolved,
-   nothing is forced - annotated symbols and symbols inferred from already typed right-hand sides.
+(* ... and the hypothesis is DISCHARGED for an ABSTRACT dependency-driven resolution: the state is only the
+   set of resolved symbols (no types: each symbol's type is taken to be determined by the symbol once
+   its dependencies are resolved), every symbol resolves as soon as all it depends on are resolved,
+   nothing is forced.  This says that the least fixpoint of such a closure is unique; it is NOT
+   corresponded against resolve_type.
    For this class the fixpoint is order-free unconditionally.  (Inference that chooses among several
    possible types, and the forced fallback, stay outside: there the hypothesis remains undischarged.) *)
-Theorem C07_resolve_symbols_order_free_dependency_driven :
+Theorem C07_resolve_symbols_order_free_dependency_driven_abstract :
   forall (deps : Z -> list Z) (syms : list Z) orders orders' s n n',
     Forall (fun o => incl o syms /\ incl syms o) orders ->
     Forall (fun o => incl o syms /\ incl syms o) orders' ->
     resolve_fix (list Z) (dd_resolve deps) dd_force orders s = Some n ->
     resolve_fix (list Z) (dd_resolve deps) dd_force orders' s = Some n' -> n = n'.
 Proof. exact dependency_driven_order_free. Qed.
-Print Assumptions C07_resolve_symbols_order_free_dependency_driven.
+Print Assumptions C07_resolve_symbols_order_free_dependency_driven_abstract.
